@@ -33,6 +33,9 @@ nothing is evaluated:
   inline_context_managers  (opt-in) `with CM(..) as v: B` -> what entering CM does; v = ..; B; what leaving it does  (contextlib.nullcontext,
                         @contextmanager generators with one yield, small classes with __enter__/__exit__ whose fields become locals)
 
+  inline_local_objects  (opt-in) `x = C(..)` with C a small class of the module, x used only as x.method(..) / x.field -> constructor and
+                        methods inlined, the fields as locals x__field
+
 A transformation that cannot be applied safely (re-assigned names, break/continue, *args, generators, early returns) leaves the
 code as it is; the rules then see the original spelling."""
 from __future__ import annotations
@@ -2822,6 +2825,186 @@ def inline_context_managers(func, resolve, max_depth: int = 3):
     func.body = expand(func.body, 0)
     ast.fix_missing_locations(func)
     return func
+
+
+# ------------------------------------------------------------------------------------------------ local helper objects (opt-in pass)
+
+def _dataclass_init(cls: ast.ClassDef):
+    """the constructor @dataclass generates: one parameter per annotated field (defaults / default factories as the parameter's
+    default expression -- evaluated per call, as the generated code does), each stored into the field of the same name"""
+    args, defaults, body = [ast.arg(arg="self")], [], []
+    for st in cls.body:
+        if isinstance(st, ast.AnnAssign) and isinstance(st.target, ast.Name) and "ClassVar" not in ast.unparse(st.annotation):
+            d = st.value
+            if isinstance(d, ast.Call) and ast.unparse(d.func).split(".")[-1] == "field":
+                kw = {k.arg: k.value for k in d.keywords}
+                if "default_factory" in kw:
+                    d = ast.Call(func=copy.deepcopy(kw["default_factory"]), args=[], keywords=[])
+                elif "default" in kw:
+                    d = copy.deepcopy(kw["default"])
+                else:
+                    d = None
+                if kw.get("init") is not None:
+                    return None
+            if d is None and defaults:
+                return None
+            args.append(ast.arg(arg=st.target.id))
+            if d is not None:
+                defaults.append(copy.deepcopy(d))
+            body.append(ast.Assign(targets=[ast.Attribute(value=ast.Name(id="self", ctx=ast.Load()), attr=st.target.id, ctx=ast.Store())], value=ast.Name(id=st.target.id, ctx=ast.Load())))
+    fn = ast.FunctionDef(name="__init__", args=ast.arguments(posonlyargs=[], args=args, kwonlyargs=[], kw_defaults=[], defaults=defaults), body=body or [ast.Pass()], decorator_list=[], lineno=cls.lineno, col_offset=0)
+    return ast.fix_missing_locations(fn)
+
+
+def _procedure_without_early_returns(m: ast.FunctionDef):
+    """a method whose `return`s carry no value, with its guard clauses turned into if / else arms (normalize._tailify) and the -- now
+    trailing -- returns dropped: the same statements in straight-line form;  the method itself when it has no early return"""
+    rets = [n for n in ast.walk(m) if isinstance(n, ast.Return)]
+    if not rets or any(r.value is not None and not (isinstance(r.value, ast.Constant) and r.value.value is None) for r in rets):
+        return m
+    if all(r is m.body[-1] for r in rets):
+        return m
+    t = _tailify(copy.deepcopy(_callee_body(m)))
+    if t is None:
+        return m
+
+    class Drop(ast.NodeTransformer):
+        def visit_Return(self, n):
+            return ast.copy_location(ast.Pass(), n)
+
+        def visit_FunctionDef(self, n):
+            return n
+    new = copy.deepcopy(m)
+    new.body = [Drop().visit(b) for b in t]
+    return ast.fix_missing_locations(new)
+
+
+def inline_local_objects(func, resolve_class, max_depth: int = 4):
+    """A helper OBJECT that lives and dies inside `func` -- `x = C(..)` with C a small class of the module (plain or @dataclass), `x`
+    bound once and used only as `x.method(..)` / `x.field` / `x.property` -- is the bundle of its fields: the constructor and every
+    method called on it are inlined (normalize.inline_stmt_calls with `x` as the receiver) and each field `x.f` becomes the local
+    `x__f`.  What the methods do to the fields then shows up in `func` exactly as if the bookkeeping had been written with locals.
+    Returns a rewritten copy, or `func` itself when no object qualifies / something could not be inlined (an object that escapes,
+    a method with a valued early return, inheritance, __post_init__ ..)."""
+    stores = {}
+    for n in ast.walk(func):
+        if isinstance(n, ast.Name) and isinstance(n.ctx, (ast.Store, ast.Del)):
+            stores[n.id] = stores.get(n.id, 0) + 1
+    params = {a.arg for a in func.args.args + func.args.kwonlyargs}
+    cands = []
+    for n in ast.walk(func):
+        if isinstance(n, ast.Assign) and len(n.targets) == 1 and isinstance(n.targets[0], ast.Name) and isinstance(n.value, ast.Call) and isinstance(n.value.func, ast.Name):
+            x = n.targets[0].id
+            cls = resolve_class(n.value.func.id)
+            if isinstance(cls, ast.ClassDef) and stores.get(x) == 1 and x not in params:
+                cands.append((x, cls))
+    out = func
+    for x, cls in cands:
+        decs = [ast.unparse(d).split("(")[0].split(".")[-1] for d in cls.decorator_list]
+        if any(ast.unparse(b) != "object" for b in cls.bases) or any(d != "dataclass" for d in decs):
+            continue
+        meths = {m.name: m for m in cls.body if isinstance(m, ast.FunctionDef)}
+        if "__post_init__" in meths or any(isinstance(m, ast.AsyncFunctionDef) for m in cls.body):
+            continue
+        if "__init__" not in meths:
+            init = _dataclass_init(cls) if decs else None
+            if init is None:
+                continue
+            meths["__init__"] = init
+        props = {k for k, m in meths.items() if any(ast.unparse(d) == "property" for d in m.decorator_list)}
+        if any(m.decorator_list and k not in props for k, m in meths.items()):
+            continue
+        fields = {t.attr for m in meths.values() for n in ast.walk(m) for t in (n.targets if isinstance(n, ast.Assign) else [n.target] if isinstance(n, (ast.AugAssign, ast.AnnAssign)) else [])
+                  for t in ([t] if not isinstance(t, (ast.Tuple, ast.List)) else t.elts)
+                  if isinstance(t, ast.Attribute) and isinstance(t.value, ast.Name) and t.value.id == m.args.args[0].arg}
+        class_level = {t.id for st in cls.body if isinstance(st, ast.Assign) for t in st.targets if isinstance(t, ast.Name)}
+        if fields & set(meths) or class_level:
+            continue
+        work = copy.deepcopy(out)
+        # every use of x is `x.<something>`
+        parents = {}
+        for n in ast.walk(work):
+            for ch in ast.iter_child_nodes(n):
+                parents[id(ch)] = n
+        uses = [n for n in ast.walk(work) if isinstance(n, ast.Name) and n.id == x and isinstance(n.ctx, ast.Load)]
+        if not uses or any(not (isinstance(parents.get(id(u)), ast.Attribute) and parents[id(u)].value is u) for u in uses):
+            continue
+        plain = {k: _procedure_without_early_returns(m) for k, m in meths.items() if k not in props}
+        for k, m in list(plain.items()):
+            m2 = copy.deepcopy(m)
+            m2.decorator_list = []
+            plain[k] = m2
+        pm = {}
+        for k in props:
+            m2 = copy.deepcopy(meths[k])
+            m2.decorator_list = []
+            pm[k] = m2
+        recv = ast.Name(id=x, ctx=ast.Load())
+
+        # 1. the constructor call -> a statement call of __init__ on x (inlined below like any other method)
+        class Ctor(ast.NodeTransformer):
+            def visit_Assign(self, n):
+                if len(n.targets) == 1 and isinstance(n.targets[0], ast.Name) and n.targets[0].id == x:
+                    c = n.value
+                    call = ast.Call(func=ast.Attribute(value=ast.Name(id=x, ctx=ast.Load()), attr="__init__", ctx=ast.Load()), args=c.args, keywords=c.keywords)
+                    return ast.copy_location(ast.Expr(value=call), n)
+                return n
+        work = Ctor().visit(work)
+        ast.fix_missing_locations(work)
+
+        # 2. property reads -> calls (inlined as expressions below)
+        class Props(ast.NodeTransformer):
+            def visit_Attribute(self, n):
+                self.generic_visit(n)
+                if isinstance(n.value, ast.Name) and n.value.id == x and n.attr in pm and isinstance(n.ctx, ast.Load):
+                    return ast.copy_location(ast.Call(func=n, args=[], keywords=[]), n)
+                return n
+
+        def resolve(call):
+            f = call.func
+            if isinstance(f, ast.Attribute) and isinstance(f.value, ast.Name) and f.value.id == x:
+                m = plain.get(f.attr) or pm.get(f.attr)
+                if m is not None:
+                    return m, ast.Name(id=x, ctx=ast.Load())
+            return None
+        for _ in range(max_depth):
+            before = ast.dump(work)
+            work = Props().visit(work)
+            ast.fix_missing_locations(work)
+            # expression-bodied methods / properties anywhere inside an expression
+            class Exprs(ast.NodeTransformer):
+                def visit_Call(self, n):
+                    self.generic_visit(n)
+                    r = resolve(n)
+                    if r is not None and _simple_callee(r[0]) == "expr":
+                        e = inline_expr(r[0], n, r[1])
+                        if e is not None:
+                            return ast.copy_location(e, n)
+                    return n
+            work = Exprs().visit(work)
+            ast.fix_missing_locations(work)
+            inline_stmt_calls(work, resolve, max_depth)
+            ast.fix_missing_locations(work)
+            if ast.dump(work) == before:
+                break
+        # 3. the fields become locals; anything else still said about x means the object was not fully dissolved
+        left = [n for n in ast.walk(work) if isinstance(n, ast.Attribute) and isinstance(n.value, ast.Name) and n.value.id == x and n.attr not in fields]
+        if left:
+            continue
+        k = next(_counter)
+
+        class Fields(ast.NodeTransformer):
+            def visit_Attribute(self, n):
+                self.generic_visit(n)
+                if isinstance(n.value, ast.Name) and n.value.id == x:
+                    return ast.copy_location(ast.Name(id=f"{x}__{n.attr}", ctx=n.ctx), n)
+                return n
+        work = Fields().visit(work)
+        if any(isinstance(n, ast.Name) and n.id == x for n in ast.walk(work)):
+            continue
+        ast.fix_missing_locations(work)
+        out = work
+    return out
 
 
 def normalize_function(func, tables: dict | None = None, ctables: dict | None = None, cname: str | None = None):
